@@ -2,6 +2,7 @@ import PydraModel.DriverUtil
 import PydraModel.Typing.Model
 import PydraModel.Typing.Defects
 import PydraModel.Typing.Static2
+import PydraModel.Typing.IdemU
 open Lean PydraModel PydraModel.Typing PydraModel.DriverUtil
 
 /-
@@ -95,7 +96,8 @@ def handle (j : Json) : Json :=
         | .ok v' => (conforms t v', resToJson (coerce cfg t v'))
         | .error _ => (false, .null)
       return Json.mkObj [("r", resToJson r), ("conf", .bool conf), ("again", again),
-                         ("d13", .bool (d13 t v)), ("d13b", .bool (d13b t v)), ("bytesExp", .bool (bytesAtGen t v))]
+                         ("d13", .bool (d13 t v)), ("d13b", .bool (d13b t v)), ("bytesExp", .bool (bytesAtGen t v)),
+                         ("d13u", .bool (d13u sac t v))]
     | "assign" =>
       let t ← tyOfJson (← j.getObjVal? "t")
       let v ← valOfJson (← j.getObjVal? "v")
@@ -103,12 +105,13 @@ def handle (j : Json) : Json :=
       if !v.wf then throw "value not well-formed (class/payload)"
       return Json.mkObj [("r", resToJson (assignField t v))]
     | "hyp21" =>
-      -- do the hypotheses of C21_partial_seqPatterns hold for this (T, S, v)?
+      -- do the hypotheses of C21_partial_hashTyItems / C21_partial_seqPatterns hold for this (T, S, v)?
       let T ← tyOfJson (← j.getObjVal? "T")
       let S ← tyOfJson (← j.getObjVal? "S")
       let v ← valOfJson (← j.getObjVal? "v")
-      return Json.mkObj [("seqPat", .bool T.seqPat), ("anyFree", .bool S.anyFree), ("std", .bool v.std),
-                         ("strict", .bool (strictAtoms S v)), ("ex21", .bool (ex21 fieldParserSac T v)),
+      return Json.mkObj [("seqPat", .bool T.seqPat), ("wf", .bool (T.wf && S.wf)), ("anyFree", .bool S.anyFree),
+                         ("std", .bool v.std), ("strict", .bool (strictAtoms S v)),
+                         ("ex21", .bool (ex21 fieldParserSac T v)), ("ex21x", .bool (ex21x fieldParserSac T v)),
                          ("conf", .bool (conforms S v))]
     | "check" =>
       let T ← tyOfJson (← j.getObjVal? "T")
